@@ -7,6 +7,7 @@ OverlapDisturbsNothing / ReturnIffPass and emits every history of execute()
 calls (exit path x raising-callback subset x overlapping call x dut id); each
 history is replayed on ONE real Test object; every callback snapshots the
 record it is handed; after every call the public state is inspected."""
+import copy
 import json
 import logging
 import multiprocessing as mp
@@ -63,8 +64,18 @@ def _run_history(hist):
   state = dict(run=0, cur=None, cbs=[], overlap=None, plug_bad=False)
   ctx = build.Ctx({})
 
+  try:
+    build.CONF.declare('verif_c09_limits', default_value=None)
+  except Exception:  # pylint: disable=broad-except
+    pass   # declared by an earlier history in this worker
+  kept = []
+
   def body_hook(ctx_, name, test_api, b):
     cur = state['cur']
+    if name in ('st', 'p1'):
+      # the station's live configuration value is modified in place while the test runs: the record's
+      # "configuration snapshot" is the configuration at execute() time
+      build.CONF.verif_c09_limits['seen'].append(name)
     if name == 'p1' and cur['path'] != 'fail_unset':
       test_api.measurements.dd[0] = 1      # in path fail_unset the dimensioned measurement stays UNSET
     if name == 'st':
@@ -102,12 +113,15 @@ def _run_history(hist):
       snap = dict(i=i, rid=id(rec), oc=rec.outcome.name if rec.outcome else None,
                   end=rec.end_time_millis, start=rec.start_time_millis, dut=rec.dut_id,
                   name=rec.metadata.get('test_name'), has_conf='config' in rec.metadata,
+                  conf=copy.deepcopy((rec.metadata.get('config') or {}).get('verif_c09_limits')),
                   running=(st_obj.running_phase_state is not None) if st_obj else None,
                   finalized=st_obj.is_finalized if st_obj else None,
                   phases=[dict(name=p.name, oc=p.outcome.name if p.outcome else None,
                                res=build.result_kind(p.result), has_opts=p.options is not None,
                                s=p.start_time_millis, e=p.end_time_millis) for p in rec.phases])
       state['cbs'].append(snap)
+      if i == 1:
+        kept.append((state['run'], rec))
       if i == 1 and state['cur']['overlap'] == 'cb' and state['overlap'] is None:
         # a second execute() while the first one is finalizing (its executor thread has ended)
         # (from another thread, and never waited for longer than 20 s: an accepted
@@ -141,6 +155,7 @@ def _run_history(hist):
     ctx.script = {n: [(b, 'n', ())] for n, b in PATH_SCRIPT[call['path']].items()}
     ctx.att = {}
     what = 'call %d (%s)' % (k + 1, call['path'])
+    build.CONF.load(verif_c09_limits={'run': k + 1, 'seen': [k + 1]}, _override=True)
     try:
       ret = test.execute(test_start=start)
       got_ret = 'True' if ret is True else 'False' if ret is False else repr(ret)
@@ -150,6 +165,7 @@ def _run_history(hist):
       got_ret = 'raised %s' % type(e).__name__
     for t in ctx.aborters:
       t.join(5)
+    build.CONF.verif_c09_limits['seen'].append('after')
     det = dict(call=k + 1, path=call['path'])
     if got_ret != call['ret']:
       bad.append(('execute() returned %s, model says %s' % (got_ret, call['ret']), det))
@@ -169,6 +185,8 @@ def _run_history(hist):
         bad.append(('record dut_id is %r, expected %r' % (c['dut'], exp_dut), det))
       if c['name'] != 'openhtf_test' or not c['has_conf']:
         bad.append(('record metadata lacks test name / config snapshot', det))
+      if c['conf'] != {'run': k + 1, 'seen': [k + 1]}:
+        bad.append(('record metadata config is not the configuration as it was when execute() was called', det))
       if c['running']:
         bad.append(('a phase is still marked running when callbacks run', det))
       if c['finalized'] is False:
@@ -188,6 +206,9 @@ def _run_history(hist):
       bad.append(('Test still registered for SIGINT after execute() returned', det))
     if len(handlers()) != base_handlers:
       bad.append(('record log handler not removed after execute() returned', det))
+  for run, rec in kept:
+    if (rec.metadata.get('config') or {}).get('verif_c09_limits') != {'run': run, 'seen': [run]}:
+      bad.append(('a record that was handed to the callbacks changed afterwards (config snapshot)', dict(call=run)))
   return bad
 
 
